@@ -122,7 +122,7 @@ def diagnose(res: CheckResult, name: str, mism: List[dict], cur: Dict[str, bool]
     batch = mism[:200]
     # verdict-level oracle: what the top-level callers got vs what the specification's behaviour gives them
     for it in batch:
-        if it.get("expected") and len(it["prog"]["drv"]) == 1:
+        if it.get("expected"):
             for clause, what in verdict_clauses(it["expected"], it["log"], it["prog"])[:1]:
                 from icv.attribute import CLAUSES
                 props = CLAUSES.get(clause, set())
